@@ -97,7 +97,11 @@ def _mutate_leaf(sem, t, v, alt):
         if isinstance(v, bytes):
             return bytes([v[0] ^ 0x21]) + v[1:] if v else None
         if isinstance(v, str):
-            return ("b" if v[0] != "b" else "c") + v[1:] if v else None
+            if not v:
+                return None
+            if ord(v[0]) > 0xFFFF:  # a surrogate pair is two units: keep the unit count of a fixed wchar array
+                return "bc" + v[1:]
+            return ("b" if v[0] != "b" else "c") + v[1:]
         if not v:
             return None
         nv = _mutate_leaf(sem, t["t"], v[0], alt)
@@ -235,6 +239,17 @@ def run_case(case, ctx):
         setattr(o2, k_, v_)
     if libside.cplain(o1) != libside.cplain(o2) or lib(o1.dumps) != lib(o2.dumps):
         raise Violation("constructor-differs-from-setattr", f"T(*{npos} positional, **{sorted(kw)}) = {libside.cplain(o1)!r}, default+setattr = {libside.cplain(o2)!r}: {desc()}")
+    # unspecified members are this instance's own: changing them in place on one instance built this way does not
+    # show on the next one built the same way
+    unspecified = {lf[i]._name for i in range(npos, nfields) if lf[i]._name not in kw}
+    scratch = lib(lambda: T(*vals[:npos], **kw))
+    if not isinstance(scratch, Err) and unspecified:
+        nt = lib(libside.touch_mutable, scratch, unspecified)
+        if isinstance(nt, int) and nt:
+            o3 = lib(lambda: T(*vals[:npos], **kw))
+            if isinstance(o3, Err) or libside.cplain(o3) != libside.cplain(o2) or lib(o3.dumps) != lib(o2.dumps):
+                raise Violation("constructor-differs-from-setattr", f"T(*{npos} positional, **{sorted(kw)}) built after another instance built the same way had its unspecified members {sorted(unspecified)} changed in place gives {o3 if isinstance(o3, Err) else libside.cplain(o3)!r}, default+setattr = {libside.cplain(o2)!r}: {desc()}")
+            ctx.count(f"ctor:unspecified-mutable-member-touched:{'positional' if npos else 'keyword-only'}")
     dflt = refsem.canon(sem.default(common.ROOT))
     p1 = libside.cplain(o1)
     for i, f in enumerate(root["fields"]):
@@ -292,6 +307,21 @@ def run_case(case, ctx):
             if isinstance(d1, Err) or d1 != e1:
                 changed = [] if isinstance(d1, Err) else [i for i in range(min(len(e0), len(d1))) if d1[i] != e0[i]]
                 raise Violation("assignment-not-local", f"after {'.'.join(attrs)} = {nv!r}: dumps {d1!r}, reference {e1.hex()} (before: {e0.hex()}, changed bytes {changed}): {desc()}")
+            # equality and hash follow the assignment (a was hashed above, before it): no memoised result survives
+            if not refsem.has_nan(newtree):
+                b2 = build(T, common.ROOT, newtree)
+                eq2 = lib(lambda: a == b2)
+                if eq2 is not True:
+                    raise Violation("equal-instances-unequal", f"after {'.'.join(attrs)} = {nv!r} the instance and one built from the same values: == gives {eq2!r}: {desc()}")
+                if refsem.canon(newtree) != refsem.canon(want) and lib(lambda: a == b) is not False:
+                    raise Violation("unequal-instances-equal", f"after {'.'.join(attrs)} = {nv!r} the instance still equals one holding the old values: {desc()}")
+                ha2, hb2 = lib(hash, a), lib(hash, b2)
+                if not isinstance(ha2, Err) and not isinstance(hb2, Err):
+                    if ha2 != hb2:
+                        raise Violation("equal-instances-hash-differently", f"hash(a) taken, then {'.'.join(attrs)} = {nv!r}: a == b2 but hash {ha2} != {hb2} (stale hash?): {desc()}")
+                    ctx.count("hash:equal-after-assignment")
+                elif not (isinstance(ha2, Err) and ha2.type == "TypeError"):
+                    raise Violation("hash-raised", f"hash raised {ha2!r}/{hb2!r}: {desc()}")
             kind = "bit-field" if fld.get("bits") else "anonymous-forwarded" if len(mpath) == 2 and len(attrs) == 1 else "nested" if len(attrs) == 2 else "top"
             ctx.count("assign:" + kind)
     ctx.count(f"fields:{nfields}")
